@@ -45,16 +45,22 @@ func crdtScenarios(tier string) []crdtScenario {
 		}
 		return crdtScenario{name, c}
 	}
+	indexed := func(c *crdtx.Config) {
+		c.SDL = `type User { name: String @index  c: Int @crdt(type: pncounter) }`
+		c.IndexProbe = "name"
+	}
 	if tier == "thorough" {
 		return []crdtScenario{
 			mk("plain N=2 L=4 pre-created", 2, 4, true, nil),
 			mk("plain N=3 L=3 pre-created", 3, 3, true, nil),
 			mk("plain N=2 L=3 with create", 2, 3, false, nil),
+			mk("indexed register N=2 L=4 pre-created", 2, 4, true, indexed),
 		}
 	}
 	return []crdtScenario{
 		mk("plain N=2 L=4 pre-created", 2, 4, true, nil),
 		mk("plain N=2 L=2 with create", 2, 2, false, nil),
+		mk("indexed register N=2 L=3 pre-created", 2, 3, true, indexed),
 	}
 }
 
